@@ -60,6 +60,28 @@ pub fn plan_roundtrip(req: &Value) -> Value {
     }
 }
 
+/// serde_json's text layer on its own: the pretty and the compact text of a JSON value (hex), and, when the value
+/// deserialises as a Plan, the pretty text of that Plan (struct field order, which is what renamify writes)
+pub fn json_text(req: &Value) -> Value {
+    let v = &req["value"];
+    let pretty = serde_json::to_string_pretty(v).unwrap_or_default();
+    let compact = serde_json::to_string(v).unwrap_or_default();
+    let plan_pretty = serde_json::from_value::<Plan>(v.clone())
+        .ok()
+        .and_then(|p| serde_json::to_string_pretty(&p).ok());
+    json!({"pretty": crate::util::hex(pretty.as_bytes()), "compact": crate::util::hex(compact.as_bytes()),
+           "plan_pretty": plan_pretty.map(|t| crate::util::hex(t.as_bytes()))})
+}
+
+/// serde_json::from_slice on arbitrary bytes (hex): the parsed value, or the error text
+pub fn json_parse(req: &Value) -> Value {
+    let bytes = crate::util::hex_field(req, "text");
+    match serde_json::from_slice::<Value>(&bytes) {
+        Ok(v) => json!({"ok": v}),
+        Err(e) => json!({"err": e.to_string()}),
+    }
+}
+
 /// diffy: create_patch(a,b).to_string(), optional header rewrite, from_str, apply(a) == b ?
 pub fn diffy_roundtrip(req: &Value) -> Value {
     let Some(a) = str_field(req, "a") else { return json!({"skip": "utf8"}) };
